@@ -427,6 +427,13 @@ def replay_enumerated(ctx, rec, cc, case, idx, rng, probe=None):
             fin = _guard(cx, 'propagate_to', desc, lambda: fsA.propagate_to(sc_.distance(dodd, 'cm', True)))
             if fin is not None:
                 obs(fin[-1], n, dodd, 'chop(list);propagate_to', key='propagate_to: ' + INT_DIST_KEY)
+                # ... and on from there: the frame now carries whatever the caller's integer-typed distance became
+                cx2 = _Fixed(ctx, 'propagate_to from a frame at an integer-typed distance: ' + INT_DIST_KEY)
+                far = dodd + 3
+                fin2 = _guard(cx2, 'propagate_to', desc, lambda: fin.propagate_to(sc_.distance(far)))
+                if fin2 is not None:
+                    obs(fin2[-1], n, far, 'chop(list);propagate_to;propagate_to',
+                        key='propagate_to from a frame at an integer-typed distance: ' + INT_DIST_KEY)
             stops = [0] + [d for d, _ in chs]
             cx = _Fixed(ctx, '__getitem__(distance): ' + INT_DIST_KEY)
             for k in range(n + 1):
